@@ -184,6 +184,10 @@ class Sym:
                 return ("min", self.expr(c.args[0], depth + 1, seen), self.expr(c.args[1], depth + 1, seen))
             if last == "max" and len(c.args) >= 2:
                 return ("max", self.expr(c.args[0], depth + 1, seen), self.expr(c.args[1], depth + 1, seen))
+            if last == "unwrap_or" and len(c.args) >= 2 and a0 is not None:
+                return ("phi", self.canon(local, fields), t,
+                        (self.place_expr(a0[0], tuple(place_fields(a0)) + ("0",) + tuple(fields), depth + 1, seen),
+                         self.expr(c.args[1], depth + 1, seen)), (c.bb, c.bb))
             if last in ("unsigned_abs", "abs") and a0 is not None:
                 return ("neg", self.expr(c.args[0], depth + 1, seen))
             if c.is_(*TRANSPARENT) and a0 is not None:
@@ -1588,3 +1592,114 @@ def _compile_function_sum_guard(cx):
             b = fb.at(c.bb)
             return any(s >= {"len(optional_args)", "len(captures)"} and ub <= 255 for s, ub in b.sums)
     return False
+
+
+# ---------------------------------------------------------------------------------------------
+# R-CURSOR (C06, C13): an iterator cursor that can step past its bound is compared with it before being subtracted
+
+def _alternatives(e, out=None, depth=0):
+    out = [] if out is None else out
+    if e[0] == "phi" and depth < 6:
+        for x in e[3]:
+            _alternatives(x, out, depth + 1)
+    elif e[0] == "cast":
+        _alternatives(e[1], out, depth + 1)
+    else:
+        out.append(e)
+    return out
+
+
+def _maybe_positive(e):
+    for x in _alternatives(e):
+        if x[0] == "K" and x[1] >= 1:
+            return True
+        if x[0] == "L" and x[1].startswith("len("):
+            return True
+        if x[0] == "add" and (_maybe_positive(x[1]) or _maybe_positive(x[2])):
+            return True
+    return False
+
+
+def rule_cursor(cx, tier):
+    r = RuleResult("R-CURSOR", "an iterator whose cursor can be set past the end of its input (`self.start = end + k` with "
+                               "`end` possibly equal to the input's length) compares the cursor with the length before every "
+                               "overflow-checked `len - cursor`: exhausted iterators are still asked for size_hint() / next()")
+    F = cx.F
+    groups = {}
+    for fn in F.fns.values():
+        if fn.crate.uname != "koto_runtime" or fn.derived or fn.kind == "Closure":
+            continue
+        if fn.impl_trait in ("Iterator", "KotoIterator", "DoubleEndedIterator", "ExactSizeIterator") and fn.impl_self:
+            groups.setdefault(fn.impl_self, []).append(fn)
+    for fn in F.fns.values():      # inherent methods of the same types
+        if fn.crate.uname == "koto_runtime" and not fn.derived and fn.kind != "Closure" and fn.impl_trait is None \
+                and fn.impl_self in groups:
+            groups[fn.impl_self].append(fn)
+    n_types = 0
+    n_over = 0
+    for ty, fns in sorted(groups.items()):
+        # cursor assignments
+        overs = {}      # (cursor leaf, bound leaf) -> (fn, line)
+        syms = {}
+        for fn in fns:
+            sym = syms.setdefault(fn.name, Sym(cx, fn))
+            for b in fn.blocks:
+                if b.cleanup:
+                    continue
+                for st in b.stmts:
+                    if st[0] != "a" or st[1][0] != 1 or st[2][0] != "use":
+                        continue
+                    fs = place_fields(st[1])
+                    if len(fs) != 1 or fn.crate.tstr(_pty(st[1])) != "usize" if _pty(st[1]) is not None else len(fs) != 1:
+                        continue
+                    e = sym.expr(st[2][1])
+                    for x in _alternatives(e):
+                        if x[0] != "add":
+                            continue
+                        for e1, e2 in ((x[1], x[2]), (x[2], x[1])):
+                            if not _maybe_positive(e2):
+                                continue
+                            for alt in _alternatives(e1):
+                                if alt[0] == "L" and alt[1].startswith("len(self."):
+                                    overs.setdefault(("self." + fs[0], alt[1]), (fn, loc_line(st[3]) if len(st) > 3 else fn.line))
+        if not any(True for _ in fns):
+            continue
+        n_types += 1
+        if not overs:
+            continue
+        for (cur, bound), (afn, aline) in overs.items():
+            n_over += 1
+            for fn in fns:
+                fb = None
+                for c in fn.calls():
+                    if (c.pretty or c.short or "").rsplit("::", 1)[-1] in ("saturating_sub", "checked_sub") and len(c.args) >= 2:
+                        sym = syms.setdefault(fn.name, Sym(cx, fn))
+                        a, b2 = sym.expr(c.args[0]), sym.expr(c.args[1])
+                        if a[0] == "L" and a[1] == bound and b2[0] == "L" and b2[1] == cur:
+                            r.instances += 1
+                            r.nontrivial += 1
+                            r.sample({"type": ty, "fn": fn.qual, "line": c.line, "site": f"{bound} - {cur}",
+                                      "cursor_overshoots_at": f"{afn.qual.rsplit('::', 1)[-1]}:{aline}",
+                                      "guarded": (c.pretty or c.short).rsplit("::", 1)[-1]})
+                for bb, t in arith._asserts(fn):
+                    if t[1] != "Overflow:Sub":
+                        continue
+                    sym = syms.setdefault(fn.name, Sym(cx, fn))
+                    a, b2 = sym.expr(t[5][0]), sym.expr(t[5][1])
+                    if not (a[0] == "L" and a[1] == bound and b2[0] == "L" and b2[1] == cur):
+                        continue
+                    r.instances += 1
+                    r.nontrivial += 1
+                    fb = fb or FnBounds(cx, fn)
+                    ok = _relational_sub(fb, bb, op_base(t[2]), [a, b2])
+                    r.sample({"type": ty, "fn": fn.qual, "line": loc_line(t[6]), "site": f"{bound} - {cur}",
+                              "cursor_overshoots_at": f"{afn.qual.rsplit('::', 1)[-1]}:{aline}", "guarded": ok})
+                    if not ok:
+                        r.add(Finding("R-CURSOR", fn.qual, f"{bound}-{cur}",
+                                      f"`{bound} - {cur}` is overflow-checked and not guarded, but {afn.qual} can set {cur} "
+                                      f"past {bound} (line {aline}): calling this on an exhausted iterator panics "
+                                      f"'attempt to subtract with overflow'", fn.file, loc_line(t[6])))
+    r.analysed = {"iterator_types": n_types, "cursor_bound_pairs_that_can_overshoot": n_over}
+    r.floor("iterator types in koto_runtime", n_types, 30)
+    r.floor("cursor/bound pairs that can overshoot", n_over, 2)
+    return r
